@@ -50,6 +50,53 @@ Theorem C02_every_save_closed : forall T ops, tables_ok T -> Forall (op_ok T) op
 Proof. exact every_save_closed. Qed.
 Print Assumptions C02_every_save_closed.
 
+(** the part name add_slide gives the new slide (PresentationPart._next_slide_partname as
+    repaired by 086e8ef1), in ANY state, invariant or not, for any number of p:sldId entries:
+    the call does not raise, the name is slideK.xml with K at least 1, and no part iter_parts
+    yields carries it (the former code needed every reached slide part to be listed) *)
+Theorem C02_add_slide_name_fresh : forall s n,
+  exists k, (1 <= k)%N /\ Ids.next_slide_partname n (iter_names s) = Ok (Ids.slide_name k) /\
+            ~ In (Ids.slide_name k) (iter_names s).
+Proof. exact slide_name_fresh. Qed.
+Print Assumptions C02_add_slide_name_fresh.
+
+(** the same on the operation, still with no hypothesis on the state: when add_slide returns
+    there is exactly one part object more than after the evaluation of prs.slides the call
+    begins with, it is called slideK.xml, no part reached at that point carries that name,
+    and every other part object keeps its name *)
+Theorem C02_add_slide_new_part_fresh : forall T s l,
+  snd (step false T s (AddSlide l)) = Done ->
+  exists k, (1 <= k)%N /\
+    length (st_parts (fst (step false T s (AddSlide l)))) = S (length (st_parts (fst (m_access_slides s)))) /\
+    name_of (st_parts (fst (step false T s (AddSlide l)))) (length (st_parts (fst (m_access_slides s)))) = Ids.slide_name k /\
+    ~ In (Ids.slide_name k) (iter_names (fst (m_access_slides s))) /\
+    forall q, q < length (st_parts (fst (m_access_slides s))) ->
+      name_of (st_parts (fst (step false T s (AddSlide l)))) q = name_of (st_parts (fst (m_access_slides s))) q.
+Proof. exact add_slide_new_part_fresh. Qed.
+Print Assumptions C02_add_slide_new_part_fresh.
+
+(** under the invariant, once prs.slides has been evaluated, the name is the conventional
+    slide(n+1).xml (this is what keeps the listed slides called slide1..n, a clause of Inv) *)
+Theorem C02_add_slide_name_conventional : forall T s pp,
+  Inv T s -> st_slides s = true -> getp s (st_pres s) = Some pp ->
+  Ids.next_slide_partname (length (pt_idl pp)) (iter_names s)
+  = Ok (Ids.slide_name (N.of_nat (length (pt_idl pp)) + 1)%N).
+Proof. exact slide_name_conventional. Qed.
+Print Assumptions C02_add_slide_name_conventional.
+
+(** witness outside the invariant: one listed slide slide1.xml, one related but unlisted
+    slide part slide2.xml, prs.slides evaluated; add_slide names the new part slide3.xml,
+    all reached names stay distinct and the package saved next is Closed *)
+Theorem C02_add_slide_unlisted_witness :
+  invb wT wdeck_unlisted = false /\
+  snd (step false wT wdeck_unlisted (AddSlide 0)) = Done /\
+  mem_str (Ids.slide_name 2) (iter_names wdeck_unlisted) = true /\
+  iter_names (fst (step false wT wdeck_unlisted (AddSlide 0))) = iter_names wdeck_unlisted ++ [Ids.slide_name 3] /\
+  Opc.nodupb (iter_names (fst (step false wT wdeck_unlisted (AddSlide 0)))) = true /\
+  saved_closed false wT (fst (step false wT wdeck_unlisted (AddSlide 0))) = true.
+Proof. exact add_slide_unlisted_witness. Qed.
+Print Assumptions C02_add_slide_unlisted_witness.
+
 (** re-opening: resolving every written Target against the base URI of its source and looking
     the name up among the members (what the loader of C01 does) gives back, for the package
     and for every part, exactly the in-memory relationships (id, type, target part or
@@ -200,3 +247,12 @@ Example C02_ex_shared :
   let p := mkP [47; 97]%N [47]%N [] 0 [] [] [(Some (rid_ 1), Some (rid_ 1))] 0 false [mkR (rid_ 1) rt_hyperlink (TExt [104]%N) None] in
   ref_count (rid_ 1) p = 2 /\ drop_rel p (rid_ 1) = Ok p.
 Proof. vm_compute. split; reflexivity. Qed.
+
+(* the hypotheses of C02_add_slide_name_conventional and of C02_add_slide_new_part_fresh are met
+   on the witness deck: prs.slides evaluated, then add_slide *)
+Example C02_ex_add_slide_conventional :
+  let s := run false wT wdeck [AccessSlides] in
+  invb wT s = true /\ st_slides s = true /\
+  snd (step false wT s (AddSlide 0)) = Done /\
+  iter_names (fst (step false wT s (AddSlide 0))) = iter_names s ++ [Ids.slide_name 3].
+Proof. vm_compute. repeat split. Qed.
